@@ -9,6 +9,7 @@
 #define RD_ENV_H
 #include "common.h"
 #include "dir_tree.h"
+#include "sqfs/xattr.h"
 
 typedef struct {
 	sqfs_tree_node_t n;
@@ -47,12 +48,29 @@ int sqfs_tree_node_get_path(const sqfs_tree_node_t *node, char **out)
 	return SQFS_ERROR_ALLOC;
 }
 
+/* xattr key / value objects handed out by the xattr reader contract */
+static struct { sqfs_xattr_entry_t e; sqfs_u8 key[4]; } g_kv_key;
+static struct { sqfs_xattr_value_t v; sqfs_u8 val[4]; } g_kv_val;
+static bool g_key_live, g_val_live;
+
 void sqfs_free(void *ptr)
 {
 	unsigned i;
 
 	if (ptr == NULL)
 		return;
+	if (ptr == (void *)&g_kv_key) {
+		if (!g_key_live)
+			g_path_double_free += 1;
+		g_key_live = false;
+		return;
+	}
+	if (ptr == (void *)&g_kv_val) {
+		if (!g_val_live)
+			g_path_double_free += 1;
+		g_val_live = false;
+		return;
+	}
 	for (i = 0; i < 4; ++i) {
 		if (ptr == (void *)g_path_buf[i]) {
 			if (!g_path_used[i])
@@ -106,6 +124,7 @@ static void rd_env_init(void)
 		g_path_used[i] = false;
 	g_diag = 0;
 	g_canon_fail_allowed = true;
+	g_key_live = g_val_live = false;
 	g_allocs = g_alloc_faults = 0;
 }
 
